@@ -151,6 +151,10 @@ func c09(c *Ctx) {
 			r.Check(op.domain == "echoed", "R09.K", key, site, "looked up under a key of domain '"+op.domain+"' (must be an id the server echoes: req_msg_id / bad_msg_id) — the msg_id of a received message never equals a request id, so the entry is never found")
 		}
 	}
+	// ---- R09.G: the items of a container are distinct objects --------------------------------------------
+	r.Rule("R09.G", "grouping: the container decoder builds one message object per item (allocated inside the loop): results grouped in one msg_container are dispatched one by one, not the last one n times", 1)
+	c.containerItemsDistinct("R09.G")
+
 	// ---- R09.L: lock discipline of the two tables -------------------------------------------------------
 	r.Rule("R09.L", "the waiter and hint tables are maps shared by the callers and the receive loop: every write of the map (insert, delete, replace) is inside the exclusive Lock section of the table's mutex, every read inside a Lock or RLock section", 8)
 	for _, tbl := range []string{"SyncIntObjectChan", "SyncIntReflectTypes"} {
@@ -724,4 +728,63 @@ func exclusiveGuards(fn *ssa.Function, x, y *ssa.BasicBlock, tr *an.Tracer) bool
 		}
 	}
 	return false
+}
+
+// containerItemsDistinct: in (*MessageContainer).UnmarshalTL every value appended to the result inside the loop is
+// an object allocated in that iteration.
+func (c *Ctx) containerItemsDistinct(rule string) {
+	r := c.R
+	f := c.fn(rule, load.ObjPkg, "*MessageContainer", "UnmarshalTL")
+	if f == nil {
+		return
+	}
+	inLoop := func(b *ssa.BasicBlock) bool { return reachesBlockStrict(b, b) }
+	n := 0
+	for _, cs := range an.CallsNamed(f, "builtin:append") {
+		if !inLoop(cs.Block) || len(cs.Common.Args) != 2 {
+			continue
+		}
+		// the appended elements: stores into the variadic array behind args[1]
+		sl, ok := cs.Common.Args[1].(*ssa.Slice)
+		if !ok {
+			continue
+		}
+		arr, ok := sl.X.(*ssa.Alloc)
+		if !ok || arr.Referrers() == nil {
+			continue
+		}
+		for _, rf := range *arr.Referrers() {
+			ia, ok := rf.(*ssa.IndexAddr)
+			if !ok || ia.Referrers() == nil {
+				continue
+			}
+			for _, r2 := range *ia.Referrers() {
+				st, ok := r2.(*ssa.Store)
+				if !ok || st.Addr != ssa.Value(ia) {
+					continue
+				}
+				n++
+				v := st.Val
+				for {
+					if mi, ok := v.(*ssa.MakeInterface); ok {
+						v = mi.X
+						continue
+					}
+					break
+				}
+				fresh := false
+				switch x := v.(type) {
+				case *ssa.Alloc:
+					fresh = inLoop(x.Block())
+				case *ssa.Call:
+					fresh = inLoop(x.Block()) // built by a call made in this iteration
+				}
+				r.Check(fresh, rule, sprintf("container-item:fresh-per-iteration#%d", n), c.pos(cs.Pos()),
+					"the element appended for each item of the container is created in that iteration (an object allocated before the loop makes every entry of the result the same, last, message)")
+			}
+		}
+	}
+	if n == 0 {
+		r.Undecide(rule, "container-item:fresh-per-iteration", c.pos(f.Pos()), "no append of an item inside the decoding loop found")
+	}
 }
